@@ -103,8 +103,14 @@ def validate(ctx, traces, prop, kind):
             elif d["clause"] == "EvalTotal":
                 what = [x.get("what", "") for x in e["vals"][d["env"] - 1] if x["h"] == d["h"]]
                 key += ":%s:%s" % (d.get("top", "?"), (what or [""])[0].split(":")[0])
-            elif d["clause"] == "Width" and e["act"] == "bin":
-                key += ":%s" % e["s"]
+                if d.get("top") in (">>>", "<<<", "<<", ">>", ".>>"):
+                    key += ":amount-flagged-%s" % ("signed" if d.get("rsf") == 1 else "unsigned")
+            elif d["clause"] == "EvalConst":
+                key += ":%s" % d.get("top", "?")
+                if d.get("top") in (">>>", "<<<") and d.get("aw", 0) < d.get("lw", 0):
+                    key += ":amount-narrower-than-operand"
+            elif d["clause"] == "Width":
+                key += ":%s" % e.get("s", e["act"])
             ctx.fail(key, "%s trace (w=%d thr=%d): clause %s at call %d %s handle %s env#%s"
                      % (kind, t["w"], t["thr"], d["clause"], line, json.dumps(brief), d["h"], d["env"]),
                      {"trace": t, "verdict": d})
@@ -125,10 +131,10 @@ def run(ctx, prop):
     res = tlc.run("BitVecMC", "BitVecMC.cfg", tag="bvmc")
     ctx.add_tlc(res, "M:BitVecMC.cfg")
     if quick:
-        tr = generate(ctx, "ExprGenEx1.cfg", "ex1", stride=4, thresholds=(0,))
-        tr += generate(ctx, "ExprGenSim_small.cfg", "simsmall", simulate="num=40", depth=8, thresholds=(0, 4))
+        tr = generate(ctx, "ExprGenEx1.cfg", "ex1", stride=8, thresholds=(0,))
+        tr += generate(ctx, "ExprGenSim_small.cfg", "simsmall", simulate="num=24", depth=8, thresholds=(0, 4))
         validate(ctx, tr, prop, "small")
-        tb = generate(ctx, "ExprGenSim_big.cfg", "simbig", simulate="num=16", depth=8, thresholds=(0, 6))
+        tb = generate(ctx, "ExprGenSim_big.cfg", "simbig", simulate="num=8", depth=8, thresholds=(0, 6))
         validate(ctx, tb, prop, "big")
     else:
         tr = generate(ctx, "ExprGenEx1.cfg", "ex1", thresholds=(0, 3))
